@@ -102,6 +102,9 @@ def add_header_to_file(
             out.write("\n")
             path = _determine_license_suffix_path(path)
             comment_style = EmptyCommentStyle
+            if Path(path).is_symlink():
+                # Never write through a symlink.
+                return result
 
     # A .license file that does not exist yet is only created once its
     # header could be built.
